@@ -614,6 +614,9 @@ RULE = ("sort / ops / histories: Hypothesis; sizes 0..33 weighted to 0,1,2,2^k-1
         "through insertObsInChronoOrder and insertObs(obs). Non-trivial: the track has a duplicate timestamp or a power-of-two size, or the "
         "argument hits an end / equality / empty-result case. Distinct = hash of the case.")
 
+# coverage-guided stage of the thorough tier (vt/fuzz.py): sub-check -> libFuzzer executions
+FUZZ = {'ops': 15000}
+
 SUBCHECKS = [
     SubCheck("sort", body_sort, strategy=strat_sort, quick=6000, thorough=150000, qshards=2),
     SubCheck("insert_slots", body_insert_slots, enum=enum_insert, qshards=6,
